@@ -1,8 +1,244 @@
 import GB.Base.Proto
-namespace GB.C01
-open GB GB.Proto
+import GB.C01.Spec
+/-
+  Driver of the areas c01 / c02.
 
-/-- stub: replaced when the C01 slice is built -/
-def handle : Handler := fun _ _ => "BAD c01 unimplemented"
+  `fwd …  => <event log>`  (L1): the log of one real execution of ProxyForwarder.Forward is
+    (1) judged against the trace-level specification of C01/C02 (independently of the model) → VIOL,
+    (2) replayed through the LTS `GB.Fwd.step` with a subset construction over the internal labels
+        (ACCEPT, or DIFF REJECT@k), and where the harness observed a hang the model must contain a
+        stuck state at that point.
+  `e2e …  => <observations>` (L2): observed byte sequences / status / timing of a real gRPC call through
+    GRPCProxy are compared with what was sent.
+-/
+namespace GB.C01
+open GB GB.Proto GB.Fwd
+
+abbrev Msg := String   -- the hex payload token
+abbrev Lbl := Label Msg Nat
+abbrev St := State Msg Nat
+
+def parseErrId (s : String) : Option Nat :=
+  match s.toList with
+  | 'e' :: r => (String.ofList r).toNat?
+  | _ => none
+
+def parseRecvRes (s : String) : Option (RecvRes Msg Nat) :=
+  if s = "E" then some .eof
+  else if s.startsWith "m:" then some (.msg (s.drop 2).toString)
+  else (parseErrId s).map .err
+
+def parseSendRes (s : String) : Option (SendRes Nat) :=
+  if s = "k" then some .ok else if s = "E" then some .eof else (parseErrId s).map .err
+
+def parseOkRes (s : String) : Option (OkRes Nat) :=
+  if s = "k" then some .ok else (parseErrId s).map .err
+
+def parseRet (s : String) : Option (Option (Err Nat)) :=
+  if s = "nil" then some none
+  else if s = "cc" then some (some (.ctx .canceled))
+  else if s = "cd" then some (some (.ctx .deadline))
+  else if s = "ue" then some (some .clientEOF)
+  else if s = "us" then some (some .serverEOF)
+  else if s.startsWith "other" then some (some (.peer 1000000))  -- an error value no peer ever returned
+  else match s.toList with
+    | 'p' :: r => (String.ofList r).toNat?.map (fun n => some (.peer n))
+    | _ => none
+
+/-- one log token → label -/
+def parseTok (t : String) : Option Lbl :=
+  let (k, v) := match t.splitOn ":" with
+    | [] => ("", "")
+    | k :: rest => (k, ":".intercalate rest)
+  match k with
+  | "irc" => some .incRecvCall
+  | "irr" => (parseRecvRes v).map .incRecvRet
+  | "isc" => some (.incSendCall v)
+  | "isr" => (parseOkRes v).map .incSendRet
+  | "ish" => some .incSetHeader
+  | "ist" => some .incSetTrailer
+  | "osc" => some .outStreamCall
+  | "osr" => (parseOkRes v).map .outStreamRet
+  | "owc" => some (.outSendCall v)
+  | "owr" => (parseSendRes v).map .outSendRet
+  | "orc" => some .outRecvCall
+  | "orr" => (parseRecvRes v).map .outRecvRet
+  | "ohd" => some .outHeader
+  | "otr" => some .outTrailer
+  | "ocs" => some .outCloseSend
+  | "ocl" => some .outClose
+  | "cx" => if v = "c" then some (.ctxDone .canceled) else if v = "d" then some (.ctxDone .deadline) else none
+  | "ret" => (parseRet v).map .ret
+  | _ => none
+
+def taus : List Lbl := [.tauSelCtx, .tauSelI2O, .tauSelO2I, .tauCancel]
+
+def addNew (acc : List St) (xs : List St) : List St :=
+  xs.foldl (fun a x => if a.contains x then a else a ++ [x]) acc
+
+/-- closure under internal steps (fuel = longest τ chain is 2; 6 is generous) -/
+def tauClosure (p : Params) : Nat → List St → List St
+  | 0, S => S
+  | n + 1, S =>
+    let S' := addNew S (S.flatMap (fun s => taus.filterMap (step p s)))
+    if S'.length = S.length then S else tauClosure p n S'
+
+def stepSet (p : Params) (S : List St) (l : Lbl) : List St :=
+  addNew [] ((tauClosure p 6 S).filterMap (fun s => step p s l))
+
+/-- the model says Forward cannot move on its own in `s` and has not returned -/
+def stuck (p : Params) (s : St) : Bool := !isDone s && (forced 0 p s).isNone
+
+structure Obs where
+  labels : List Lbl := []         -- events before the return of Forward (inclusive)
+  afterRet : Nat := 0             -- events logged after Forward returned
+  hang : Bool := false
+  noret : Bool := false
+  pend : Nat := 0
+  gor : Nat := 0
+  kept : Bool := true
+  dup : Bool := false
+  bad : Option String := none
+
+/-- Replays the log; returns the reject position or the final state set. `hangOK` = at every `hang`
+    marker the model had a stuck state. -/
+def replay (p : Params) : List String → List St → Nat → Bool → Except Nat (List St × Bool)
+  | [], S, _, hangOK => .ok (tauClosure p 6 S, hangOK)
+  | t :: ts, S, k, hangOK =>
+    if t = "hang" then
+      replay p ts S (k + 1) (hangOK && (tauClosure p 6 S).any (stuck p))
+    else match parseTok t with
+      | none => replay p ts S (k + 1) hangOK     -- trailer tokens (pend:, gor:, …)
+      | some l =>
+        match stepSet p S l with
+        | [] => .error k
+        | S' => replay p ts S' (k + 1) hangOK
+
+def flag (kv : String) (k : String) : Option Bool :=
+  if kv = k ++ "=1" then some true else if kv = k ++ "=0" then some false else none
+
+def getFlag (fs : List String) (k : String) : Bool :=
+  (fs.filterMap (flag · k)).head?.getD false
+
+def collect (toks : List String) : Obs := Id.run do
+  let mut o : Obs := {}
+  let mut returned := false
+  for t in toks do
+    if t = "hang" then o := { o with hang := true }
+    else if t = "noret" then o := { o with noret := true }
+    else if t = "dup" then o := { o with dup := true }
+    else if t.startsWith "pend:" then o := { o with pend := ((t.drop 5).toString.toNat?).getD 99 }
+    else if t.startsWith "gor:" then o := { o with gor := ((t.drop 4).toString.toNat?).getD 99 }
+    else if t.startsWith "kept:" then o := { o with kept := t = "kept:ok" }
+    else if t.startsWith "late:" then o := { o with afterRet := o.afterRet + 1 }
+    else match parseTok t with
+      | none => o := { o with bad := some t }
+      | some l =>
+        if returned then o := { o with afterRet := o.afterRet + 1 }
+        else
+          o := { o with labels := o.labels ++ [l] }
+          match l with
+          | .ret _ => returned := true
+          | _ => pure ()
+  return o
+
+/-- trace-level specification of C01 on the observed events; `none` = satisfied -/
+def specC01 (p : Params) (o : Obs) : Option String :=
+  let tr := o.labels
+  if !(outSent tr).isPrefixOf (incReceived tr) then some "requests-not-prefix"
+  else if !(incSent tr).isPrefixOf (outReceived tr) then some "responses-not-prefix"
+  else if !p.cs && (outSent tr).length > 1 then some "unary-request-multi"
+  else if !p.ss && (incSent tr).length > 1 then some "unary-response-multi"
+  else if !o.kept then some "message-mutated-after-send"
+  else if clientClosed tr && outSent tr ≠ incReceived tr then some "request-dropped-before-halfclose"
+  else match returnedOf tr with
+    | none => none
+    | some e =>
+      if hasFault tr then none
+      else if expectedReturn p tr ≠ some e then some "wrong-final-status"
+      else if e = none && p.ss && incSent tr ≠ outReceived tr then some "response-dropped"
+      else if e = none && !p.ss && incSent tr ≠ (outReceived tr).take 1 then some "response-dropped"
+      else if (match e with | some (.peer _) => true | _ => false) && p.ss && incSent tr ≠ outReceived tr then some "response-dropped"
+      else none
+
+/-- trace-level specification of C02 on the observed events -/
+def specC02 (p : Params) (o : Obs) : Option String :=
+  let tr := o.labels
+  if o.dup then some "concurrent-call-on-one-stream"
+  else if o.hang && p.incAware && p.outAware then some "hang-with-ctx-aware-adapters"
+  else if o.noret then some "forward-never-returned"
+  else if o.afterRet > 0 then some "events-after-return"
+  else if o.pend > 0 then some "call-pending-after-return"
+  else if o.gor > 0 then some "goroutine-left-after-return"
+  else match returnedOf tr with
+    | none => some "no-return-event"
+    | some e =>
+      if streamOpened tr && !closeCalled tr then some "outgoing-not-closed"
+      else if !originOK p tr e then some "returned-error-origin"
+      else none
+
+def retBranch : Option (Option (Err Nat)) → String
+  | none => "noret"
+  | some none => "nil"
+  | some (some (.peer _)) => "peer"
+  | some (some (.ctx .canceled)) => "canceled"
+  | some (some (.ctx .deadline)) => "deadline"
+  | some (some .clientEOF) => "clientEOF"
+  | some (some .serverEOF) => "serverEOF"
+
+def kindName (p : Params) : String :=
+  (if p.cs then "S" else "U") ++ (if p.ss then "S" else "U")
+
+/-- judge one L1 case -/
+def judgeFwd (fs : List String) (out : List String) : String :=
+  let p : Params := { cs := getFlag fs "cs", ss := getFlag fs "ss", incAware := getFlag fs "ia", outAware := getFlag fs "oa" }
+  let o := collect out
+  match o.bad with
+  | some t => s!"BAD token {t}"
+  | none =>
+    match specC01 p o with
+    | some why => s!"VIOL C01 {why}"
+    | none =>
+      match specC02 p o with
+      | some why => s!"VIOL C02 {why}"
+      | none =>
+        match replay p out [init Msg Nat] 0 true with
+        | .error k => s!"DIFF model=REJECT@{k} token={out.getD k "?"}"
+        | .ok (S, hangOK) =>
+          if !hangOK then "DIFF model=no-stuck-state-at-hang"
+          else if !(S.all isDone) then "DIFF model=not-done-at-end"
+          else
+            let tr := o.labels
+            let nt := if tr.length ≥ 8 then " nt" else ""
+            let h := if o.hang then "-hang" else ""
+            s!"OK{nt} b={kindName p}-{retBranch (returnedOf tr)}{h}"
+
+def splitKV (s : String) : String × String :=
+  match s.splitOn "=" with
+  | [] => ("", "")
+  | k :: rest => (k, "=".intercalate rest)
+
+/-- judge one L2 case: `e2e … want.<k>=<v> … => got.<k>=<v> …`: the scenario line states what client and
+    target must observe (what was sent, the target's status, promptness, no goroutine left; `*` = any),
+    the harness prints what they did observe on the real code; every wanted field must be matched. -/
+def judgeE2E (fs : List String) (out : List String) : String :=
+  let want := (fs.filter (·.startsWith "want.")).map (fun s => splitKV (s.drop 5).toString)
+  let got := (out.filter (·.startsWith "got.")).map (fun s => splitKV (s.drop 4).toString)
+  if out.any (·.startsWith "HARNESS") || out.any (·.startsWith "PANIC") then s!"BAD {out}"
+  else if want.isEmpty then "BAD e2e-no-expectation"
+  else
+    let bad := want.find? (fun (k, v) => v ≠ "*" && got.lookup k ≠ some v)
+    match bad with
+    | some (k, v) => s!"VIOL e2e {k} want={v.take 40} got={((got.lookup k).getD "<missing>").take 40}"
+    | none =>
+      let sc := (fs.find? (·.startsWith "sc=")).getD "sc=?"
+      s!"OK nt b=e2e-{(sc.drop 3).toString}"
+
+def judge : Handler
+  | "fwd" :: fs, out => judgeFwd fs out
+  | "e2e" :: fs, out => judgeE2E fs out
+  | _, _ => "BAD c01 line"
+
+def handle : Handler := judge
 
 end GB.C01
